@@ -211,6 +211,8 @@ pub trait VariantApi: Sync {
     /// `TryFrom<&[u8; N]>`; `b.len()` must be N (the probe asserts it).
     fn try_from_array(&self, b: &[u8]) -> Result<H, PErr>;
     fn generator(&self) -> G;
+    /// `Generator::<T>::default()`
+    fn generator_default(&self) -> G;
     /// `DataLengthValidity::new::<BUCKETS>(n)`
     fn validity(&self, n: u32) -> Validity;
     // --- easy functions (None when not compiled)
